@@ -476,6 +476,18 @@ inline py::tuple StructSequenceGetFields(const py::handle& object) {
 }
 
 inline void TotalOrderSort(py::list& list) {  // NOLINT[runtime/references]
+    // NOTE: `list.sort()` leaves the list partially sorted when a comparison raises.
+    // Keep a copy of the original order to restore it before retrying and on failure.
+    const py::list original = EVALUATE_WITH_LOCK_HELD(
+        py::reinterpret_steal<py::list>(PyList_GetSlice(list.ptr(), 0, PyList_GET_SIZE(list.ptr()))),
+        list);
+    const auto restore = [&list, &original]() -> void {
+        const scoped_critical_section cs{list};
+        if (PyList_SetSlice(list.ptr(), 0, PyList_GET_SIZE(list.ptr()), original.ptr()) < 0)
+            [[unlikely]] {
+            throw py::error_already_set();
+        }
+    };
     try {
         // Sort directly if possible.
         if (static_cast<bool>(EVALUATE_WITH_LOCK_HELD(PyList_Sort(list.ptr()), list)))
@@ -485,6 +497,7 @@ inline void TotalOrderSort(py::list& list) {  // NOLINT[runtime/references]
     } catch (py::error_already_set& ex1) {
         if (ex1.matches(PyExc_TypeError)) [[likely]] {
             // Found incomparable keys (e.g. `int` vs. `str`, or user-defined types).
+            restore();
             try {
                 // Sort with `(f'{obj.__class__.__module__}.{obj.__class__.__qualname__}', obj)`
                 const auto sort_key_fn = py::cpp_function([](const py::object& obj) -> py::tuple {
@@ -504,11 +517,14 @@ inline void TotalOrderSort(py::list& list) {  // NOLINT[runtime/references]
                     // Found incomparable user-defined key types.
                     // The keys remain in the insertion order.
                     PyErr_Clear();
+                    restore();
                 } else [[unlikely]] {
+                    restore();
                     std::rethrow_exception(std::current_exception());
                 }
             }
         } else [[unlikely]] {
+            restore();
             std::rethrow_exception(std::current_exception());
         }
     }
